@@ -52,6 +52,8 @@ def r_op(o):
         return "%s %d %s" % (o[0], o[1], r_expr(o[2]))
     if o[0] == "sch":
         return "sch %s %d %s %s %s" % (r_dl(o[1]), o[2], r_expr(o[3]), opt(o[4]), opt(o[5]))
+    if o[0] == "slp":
+        return "slp %d" % o[1]
     if o[0] == "cau":
         return "cau %d" % o[1]
     if o[0] in ("nst", "nsp"):
